@@ -52,6 +52,13 @@ type Case struct {
 	// Hooks: the application installed its own (accept-everything) validators - "reqid", "audience" or "both".
 	// They replace the request-ID and audience rules; the time windows hold regardless.
 	Hooks string `json:"hooks,omitempty"`
+	// RespInstant / AsrtInstant: "" = as placed | "absent" (no IssueInstant attribute) | "empty" (IssueInstant="") on the
+	// Response / on every assertion: there is then no instant that could lie inside the window.
+	RespInstant string `json:"resp_instant,omitempty"`
+	AsrtInstant string `json:"asrt_instant,omitempty"`
+	// LocalMin: the process's local time zone (time.Local) is UTC+LocalMin minutes while the message is judged; the
+	// documented reading of a zone-less instant is UTC wherever the SP runs
+	LocalMin int `json:"local_min,omitempty"`
 	// Noise: options of the SP that concern only what it sends (see spkit.Noise); the verdict must not depend on them
 	Noise uint64 `json:"noise,omitempty"`
 }
@@ -116,6 +123,12 @@ func (c *Case) build() built {
 	b.respEff = margin(respEff, true, delay)
 	r := spkit.Baseline(now, "id-req", "")
 	r.IssueInstant = respText
+	switch c.RespInstant {
+	case "absent":
+		r.IssueInstant, b.respEff = "-", -far
+	case "empty":
+		r.IssueInstant, b.respEff = "", -far
+	}
 	if c.NoDest && c.Layout == "assert" {
 		r.Destination = nil
 	}
@@ -130,6 +143,12 @@ func (c *Case) build() built {
 		var e time.Time
 		a.IssueInstant, e = c.place(now.Add(time.Duration(at.Issue)).Add(-delay))
 		eff.Issue = margin(e, true, delay)
+		switch c.AsrtInstant {
+		case "absent":
+			a.IssueInstant, eff.Issue = "-", -far
+		case "empty":
+			a.IssueInstant, eff.Issue = "", -far
+		}
 		var s string
 		s, e = c.place(now.Add(-time.Duration(at.NotBefore)).Add(skew))
 		a.NotBefore = forge.S(s)
@@ -171,6 +190,11 @@ func minMargin(a AssertionTimes) int64 {
 }
 
 func check(c Case) pbt.Result {
+	if c.LocalMin != 0 && c.LocalMin > -900 && c.LocalMin < 900 {
+		old := time.Local
+		time.Local = time.FixedZone("harness-local", c.LocalMin*60)
+		defer func() { time.Local = old }()
+	}
 	saml.MaxIssueDelay = time.Duration(c.DelayNs)
 	saml.MaxClockSkew = time.Duration(c.SkewNs)
 	fix.SetNow(c.now())
@@ -221,6 +245,12 @@ func check(c Case) pbt.Result {
 	}
 	if c.Hooks != "" {
 		res.Classes = append(res.Classes, "custom-validators:"+c.Hooks)
+	}
+	if c.RespInstant != "" || c.AsrtInstant != "" {
+		res.Classes = append(res.Classes, "issue-instant-absent-or-empty")
+	}
+	if c.LocalMin != 0 {
+		res.Classes = append(res.Classes, "process-local-zone-not-utc")
 	}
 	// model
 	anyInside, allOutside := false, true
@@ -383,6 +413,13 @@ func gen(t *rapid.T) Case {
 	}
 	c.Warm = rapid.IntRange(0, 3).Draw(t, "warm") == 0
 	c.Hooks = rapid.SampledFrom([]string{"", "", "", "reqid", "audience", "both"}).Draw(t, "hooks")
+	if rapid.IntRange(0, 11).Draw(t, "noinstant") == 0 {
+		c.RespInstant = rapid.SampledFrom([]string{"absent", "empty", ""}).Draw(t, "respinstant")
+		c.AsrtInstant = rapid.SampledFrom([]string{"absent", "empty", ""}).Draw(t, "asrtinstant")
+	}
+	if rapid.IntRange(0, 2).Draw(t, "local?") == 0 {
+		c.LocalMin = rapid.SampledFrom([]int{-720, -480, -300, -1, 1, 60, 330, 540, 840}).Draw(t, "localmin")
+	}
 	if rapid.IntRange(0, 2).Draw(t, "noise?") == 0 {
 		c.Noise = rapid.Uint64Range(1, 255).Draw(t, "noise")
 	}
@@ -414,6 +451,52 @@ func gen(t *rapid.T) Case {
 // five boundaries, crossed with the tolerance settings, shapes, layouts and encryption.
 // quick takes every 8th member (the stride is coprime to 4, so every lattice value of
 // every boundary is still visited).
+// enumNoInstant: Response / Assertion IssueInstant absent or empty with every other window far inside, per layout,
+// entry point and tolerance; and every lexical form under non-UTC process zones with each window 1 ms inside / outside.
+func enumNoInstant(_ string, emit func(Case)) {
+	good := func() AssertionTimes { return AssertionTimes{Issue: far, NotBefore: far, NotAfter: far, Confs: []int64{far}} }
+	for ti, tol := range tolerances {
+		for _, layout := range []string{"assert", "resp", "both"} {
+			for _, entry := range []string{"xml", "post", "artifact"} {
+				for _, ri := range []string{"", "absent", "empty"} {
+					for _, ai := range []string{"", "absent", "empty"} {
+						if ri == "" && ai == "" {
+							continue
+						}
+						for _, hooks := range []string{"", "both"} {
+							emit(Case{DelayNs: tol[0], SkewNs: tol[1], NowSec: fix.Epoch.Unix() + int64(ti), Layout: layout, Entry: entry, Lex: "lib", Resp: far, Asserts: []AssertionTimes{good()}, RespInstant: ri, AsrtInstant: ai, Hooks: hooks, AllowIDP: hooks != ""})
+						}
+					}
+				}
+			}
+		}
+	}
+	for _, lm := range []int{-720, -300, -1, 1, 330, 840} {
+		for _, lex := range []string{"lib", "zone", "zoneneg", "frac", "zoneless"} {
+			for slot := 0; slot < 5; slot++ {
+				for _, m := range []int64{ms, -ms, far, -far} {
+					at := good()
+					c := Case{DelayNs: int64(90 * time.Second), SkewNs: int64(180 * time.Second), NowSec: fix.Epoch.Unix(), Layout: "both", Entry: "xml", Lex: lex, Resp: far, LocalMin: lm}
+					switch slot {
+					case 0:
+						c.Resp = m
+					case 1:
+						at.Issue = m
+					case 2:
+						at.NotBefore = m
+					case 3:
+						at.NotAfter = m
+					case 4:
+						at.Confs = []int64{m}
+					}
+					c.Asserts = []AssertionTimes{at}
+					emit(c)
+				}
+			}
+		}
+	}
+}
+
 func enumLattice(tier string, emit func(Case)) {
 	stride := 8 + 1 // 9: coprime to 4 and 6
 	if tier == "thorough" {
@@ -441,6 +524,10 @@ func enumLattice(tier string, emit func(Case)) {
 										c.NoDest = layout == "assert" && (idx/stride)%2 == 1
 										c.AllowIDP = (idx/stride)%3 == 1
 										c.Hooks = []string{"", "reqid", "", "audience", "both"}[(idx/stride)%5]
+										c.LocalMin = []int{0, 0, -300, 540, 0, 60, -720}[(idx/stride)%7]
+										if c.LocalMin != 0 && (idx/stride)%2 == 0 {
+											c.Lex = "zoneless"
+										}
 										varied := AssertionTimes{Issue: is, NotBefore: nb, NotAfter: na, Confs: []int64{cf}, Encrypted: enc}
 										good := AssertionTimes{Issue: far, NotBefore: far, NotAfter: far, Confs: []int64{far}, Encrypted: enc}
 										switch shape {
@@ -478,12 +565,12 @@ var prop = &pbt.Prop[Case]{
 	Rule: "cases: a genuinely IdP-signed response whose five kinds of instants (response/assertion IssueInstant, Conditions NotBefore/NotOnOrAfter, each confirmation NotOnOrAfter) are placed at a chosen signed distance from their boundary relative to the controlled library clock; " +
 		"exhaustive lattice {far inside, 1 ms inside, 1 ms outside, far outside}^5 x 6 tolerance settings x 6 shapes (1/2/3 confirmations, two assertions with the varied one first or second, no confirmation) x signed layout (unsigned Responses with and without Destination) x plain/encrypted x AllowIDPInitiated on/off x application validators {none, request-ID, audience, both, all accepting} (complete in thorough, every 9th member in quick), on an SP under any trust configuration that may have served a login before, " +
 		"plus rapid draws with arbitrary margins, tolerances 0..48 h, 1-3 assertions, 0-3 confirmations and lexical forms (zone offsets, 9 fractional digits, zone-less, sub-millisecond digits). " +
-		"oracle: reference model on effective (millisecond-rounded) instants; margins inside (-1 ms, +1 ms) are don't-care. " +
+		"Response / Assertion IssueInstant may be absent or empty (no instant can then lie inside the window: must-reject), and the process's local zone (time.Local) may be any offset: zone-less instants are UTC wherever the SP runs. oracle: reference model on effective (millisecond-rounded) instants; margins inside (-1 ms, +1 ms) are don't-care. " +
 		"non-trivial: some boundary within 2 ms, or margins on opposite sides, or non-default tolerances. distinct: sha256 of the JSON case.",
 	Gen:   gen,
 	Check: check,
 	Reset: fix.Reset,
-	Enums: []pbt.Enum[Case]{{Name: "boundary-lattice", Each: enumLattice}},
+	Enums: []pbt.Enum[Case]{{Name: "boundary-lattice", Each: enumLattice}, {Name: "absent-instants-and-process-zones", Each: enumNoInstant}},
 	Assumptions: []string{
 		"equality exactly on a boundary and sub-millisecond bands are not judged",
 		"all non-temporal conditions are valid in every case (audience, recipient, InResponseTo, issuer, destination, signature)",
